@@ -125,6 +125,11 @@ fn offsets(n: i32, rng: &mut Rng, nrand: usize, out: &mut Vec<i64>) {
     out.clear();
     out.extend(-40..=40);
     out.extend([-119_988, -119_987, -4800, -1200, -13 * 12, 13 * 12, 1200, 4800, 119_987, 119_988, 12 * 9998, -12 * 9998, YM_LIM as i64, -(YM_LIM as i64), YM_LIM as i64 - 1, 1 - YM_LIM as i64]);
+    // whole years: every multiple of 4 years up to 40, and 100/200/300/400/800-year steps (leap-day sources meeting century targets)
+    for y in [4i64, 8, 12, 16, 20, 24, 28, 32, 36, 40, 44, 48, 52, 96, 100, 104, 196, 200, 300, 396, 400, 404, 800, 1000, 2000] {
+        out.push(12 * y);
+        out.push(-12 * y);
+    }
     let (y, m, _) = cal().of(n);
     let cur = 12 * y as i64 + m as i64 - 1;
     for e in [-1, 0, 1] {
@@ -144,7 +149,7 @@ fn offsets(n: i32, rng: &mut Rng, nrand: usize, out: &mut Vec<i64>) {
 
 pub fn run(ctx: &Ctx, st: &mut Stats) {
     cal();
-    let stride = ctx.tier.pick(7919, 11, 1);
+    let stride = ctx.tier.pick(7919, ctx.q(11, 5), 1);
     let nrand = ctx.tier.pick(2, 16, 64);
     // Date: all dates (quick: every `stride`-th day plus every 28th..31st) x offsets
     ctx.par(st, "Date: dates x month-offsets", true, 0, N_DAYS as i64, |st, i, rng| {
